@@ -166,7 +166,7 @@ func (w *World) checkC30(certs *scriptedCerts) {
 	}
 	// servedUntil loads a certificate valid for `valid` into the cache of one server and polls once
 	// per second; it returns how long before NotAfter the cached copy was last served.
-	servedUntil := func(h string, valid time.Duration) (margin time.Duration, ok bool) {
+	servedUntil := func(h string, valid time.Duration, providerFails bool) (margin time.Duration, ok bool) {
 		certs.validFor = valid
 		pace()
 		resp, err := w.call(owner, via, "GetCertificate", &protocol.KeylessGetCertificateRequest{Hostname: h, Proof: w.proof(owner, h, 0)})
@@ -178,6 +178,19 @@ func (w *World) checkC30(certs *scriptedCerts) {
 			return 0, false
 		}
 		certs.validFor = 2 * time.Hour // whatever is fetched next is recognisably another certificate
+		if providerFails {
+			// the provider (storage, issuer) is down from now on: nothing can be reloaded, and the copy that is
+			// there must still not be served beyond its expiry minus the skew
+			certs.mu.Lock()
+			certs.fail = true
+			certs.mu.Unlock()
+			defer func() {
+				certs.mu.Lock()
+				certs.fail = false
+				certs.mu.Unlock()
+			}()
+			simrt.Probe("c30-provider-down")
+		}
 		lastServed := time.Now()
 		for time.Until(first.NotAfter) > -3*time.Second {
 			simrt.Sleep(time.Second, "h:poll")
@@ -198,14 +211,15 @@ func (w *World) checkC30(certs *scriptedCerts) {
 	}
 	calHost, testHost := "short.customer.org", "probe.customer.org"
 	if bind(calHost) && bind(testHost) {
-		skew, ok := servedUntil(calHost, pick(r, 90*time.Second, 2*time.Minute, 3*time.Minute))
+		skew, ok := servedUntil(calHost, pick(r, 90*time.Second, 2*time.Minute, 3*time.Minute), false)
 		if ok {
 			valid := pick(r, 4*time.Minute+50*time.Second, 5*time.Minute+5*time.Second, 5*time.Minute+20*time.Second, 5*time.Minute+40*time.Second, 5*time.Minute+58*time.Second,
 				6*time.Minute+10*time.Second, 7*time.Minute, 12*time.Minute)
-			margin, ok2 := servedUntil(testHost, valid)
+			down := r.Chance(0.5)
+			margin, ok2 := servedUntil(testHost, valid, down)
 			simrt.Probe("c30-skew-measured")
 			if ok2 && margin < skew-2*time.Second {
-				w.res.Violate("C30", "cached-past-expiry-minus-skew", "a certificate valid for %v when it was loaded was still served from the cache %v before its expiry; a short-lived certificate shows that this server stops %v before expiry (the safety skew)", valid, margin, skew)
+				w.res.Violate("C30", "cached-past-expiry-minus-skew", "a certificate valid for %v when it was loaded was still served from the cache %v before its expiry (provider down meanwhile: %v); a short-lived certificate shows that this server stops %v before expiry (the safety skew)", valid, margin, down, skew)
 			}
 		}
 	}
